@@ -4,6 +4,7 @@ The interpreter instance around the machine: bootstrap (`Vm::with_built_ins` + t
 -/
 import Yarel.Spec.Machine
 import Yarel.Spec.CoreSource
+import Yarel.Spec.NativeTables
 
 namespace Yarel.Spec
 namespace State
@@ -37,7 +38,7 @@ def bootstrap (sources : List (String × String) := []) (tbl : List Rule := rule
   let st : State := { sources := sources, tbl := tbl }
   -- Object, Type (its own metaclass), StringClass, String
   let objectRef := st.heap.objs.size + 1        -- after the `derives` native
-  let (objNatives, heap) := nativeDefs st.heap [("derives", .objectDerives)]
+  let (objNatives, heap) := nativeDefs st.heap NativeTables.object
   let typeRef := objectRef + 1
   let objectData : ClassData :=
     { name := "Object", metaclass := typeRef, superclass := none, methods := objNatives }
@@ -45,21 +46,14 @@ def bootstrap (sources : List (String × String) := []) (tbl : List Rule := rule
   let typeData : ClassData :=
     { name := "Type", metaclass := typeRef, superclass := some objectRef, methods := objNatives }
   let (_, heap) := heap.alloc (.cls typeData)
-  let (statics, heap) := nativeDefs heap [("from", .stringFrom), ("from_ascii", .stringFromAscii),
-    ("from_utf8", .stringFromUtf8), ("from_code_points", .stringFromCodePoints)]
+  let (statics, heap) := nativeDefs heap NativeTables.stringStatics
   -- the String metaclass gets exactly the static natives (the inherited table is overwritten)
   let stringMetaData : ClassData :=
     { name := "StringClass", metaclass := typeRef, superclass := some objectRef, methods := statics }
   let (stringMeta, heap) := heap.alloc (.cls stringMetaData)
   let core0 : CoreRefs := { object := objectRef, typeC := typeRef, stringMeta := stringMeta }
   let st := { st with heap := { heap with core := core0 } }
-  let (stringRef, st) := st.allocNativeClass "String" stringMeta objectRef [
-    ("iter", .stringIter), ("len", .stringLen), ("is_alpha", .stringIsAlpha),
-    ("is_digit", .stringIsDigit), ("is_hexdigit", .stringIsHexdigit),
-    ("count_chars", .stringCountChars), ("char_byte_index", .stringCharByteIndex),
-    ("find", .stringFind), ("replace", .stringReplace), ("split", .stringSplit),
-    ("starts_with", .stringStartsWith), ("ends_with", .stringEndsWith), ("to_num", .stringToNum),
-    ("to_bytes", .stringToBytes), ("to_code_points", .stringToCodePoints)]
+  let (stringRef, st) := st.allocNativeClass "String" stringMeta objectRef NativeTables.string
   let st := { st with heap := { st.heap with core := { st.heap.core with string := stringRef } } }
   -- core.yl runs in module "main" before any built-in global exists
   let st :=
@@ -88,23 +82,17 @@ def bootstrap (sources : List (String × String) := []) (tbl : List Rule := rule
   let (closureMethod, st) := st.allocNativeClass "Method" typeRef objectRef []
   let (nativeMethod, st) := st.allocNativeClass "BuiltInMethod" typeRef objectRef []
   -- native object classes
-  let (tuple, st) := st.allocNativeClass "Tuple" typeRef objectRef [("len", .tupleLen), ("iter", .tupleIter)]
-  let (tupleIter, st) := st.allocNativeClass "TupleIter" typeRef iterRef [("next", .tupleIterNext)]
-  let (vec, st) := st.allocNativeClass "Vec" typeRef objectRef
-    [("push", .vecPush), ("pop", .vecPop), ("len", .vecLen), ("iter", .vecIter)]
-  let (vecIter, st) := st.allocNativeClass "VecIter" typeRef iterRef [("next", .vecIterNext)]
-  let (range, st) := st.allocNativeClass "Range" typeRef objectRef [("iter", .rangeIter)]
-  let (rangeIter, st) := st.allocNativeClass "RangeIter" typeRef iterRef [("next", .rangeIterNext)]
-  let (hashMap, st) := st.allocNativeClass "HashMap" typeRef objectRef [
-    ("has_key", .mapHasKey), ("get", .mapGet), ("insert", .mapInsert), ("remove", .mapRemove),
-    ("clear", .mapClear), ("len", .mapLen), ("keys", .mapKeys), ("values", .mapValues),
-    ("items", .mapItems)]
+  let (tuple, st) := st.allocNativeClass "Tuple" typeRef objectRef NativeTables.tuple
+  let (tupleIter, st) := st.allocNativeClass "TupleIter" typeRef iterRef NativeTables.tupleIter
+  let (vec, st) := st.allocNativeClass "Vec" typeRef objectRef NativeTables.vec
+  let (vecIter, st) := st.allocNativeClass "VecIter" typeRef iterRef NativeTables.vecIter
+  let (range, st) := st.allocNativeClass "Range" typeRef objectRef NativeTables.range
+  let (rangeIter, st) := st.allocNativeClass "RangeIter" typeRef iterRef NativeTables.rangeIter
+  let (hashMap, st) := st.allocNativeClass "HashMap" typeRef objectRef NativeTables.hashMap
   let (moduleC, st) := st.allocNativeClass "Module" typeRef objectRef []
-  let (stringIter, st) := st.allocNativeClass "StringIter" typeRef iterRef [("next", .stringIterNext)]
-  let (fiberMeta, st) := st.allocNativeClass "FiberClass" typeRef objectRef
-    [("yield", .fiberYield), ("new", .fiberNew)]
-  let (fiber, st) := st.allocNativeClass "Fiber" fiberMeta objectRef
-    [("call", .fiberCall), ("has_finished", .fiberHasFinished)]
+  let (stringIter, st) := st.allocNativeClass "StringIter" typeRef iterRef NativeTables.stringIter
+  let (fiberMeta, st) := st.allocNativeClass "FiberClass" typeRef objectRef NativeTables.fiberMeta
+  let (fiber, st) := st.allocNativeClass "Fiber" fiberMeta objectRef NativeTables.fiber
   let core := { st.heap.core with
     nilC := nilC, boolean := boolean, num := num, closure := closure, native := native,
     closureMethod := closureMethod, nativeMethod := nativeMethod, tuple := tuple,
